@@ -304,3 +304,94 @@ func (li *LockInfo) heldAt(ins ssa.Instruction, field string) (heldLock, bool) {
 	}
 	return heldLock{}, false
 }
+
+// mayHeldAtReturn: locks that are held on *some* path at a return of fn and whose release is not
+// deferred (union at joins; used for leak detection, where one leaking path is enough).
+func mayHeldAtReturn(fn *ssa.Function) []string {
+	if len(fn.Blocks) == 0 {
+		return nil
+	}
+	deferred := map[string]bool{}
+	in := map[*ssa.BasicBlock]map[string]bool{fn.Blocks[0]: {}}
+	transfer := func(b *ssa.BasicBlock, st map[string]bool) map[string]bool {
+		o := map[string]bool{}
+		for k := range st {
+			o[k] = true
+		}
+		for _, ins := range b.Instrs {
+			ci, ok := ins.(ssa.CallInstruction)
+			if !ok {
+				continue
+			}
+			if d, isDefer := ins.(*ssa.Defer); isDefer {
+				for _, k := range deferredClosureUnlocks(d) {
+					deferred[k] = true
+				}
+			}
+			op := lockOpOf(fn, ci)
+			if op == nil {
+				continue
+			}
+			if _, isDefer := ins.(*ssa.Defer); isDefer {
+				if op.Op == "unlock" || op.Op == "runlock" {
+					deferred[op.Key] = true
+				}
+				continue
+			}
+			if _, isGo := ins.(*ssa.Go); isGo {
+				continue
+			}
+			switch op.Op {
+			case "lock", "rlock":
+				o[op.Key] = true
+			case "unlock", "runlock":
+				delete(o, op.Key)
+			}
+		}
+		return o
+	}
+	work := []*ssa.BasicBlock{fn.Blocks[0]}
+	for len(work) > 0 {
+		b := work[0]
+		work = work[1:]
+		out := transfer(b, in[b])
+		for _, s := range b.Succs {
+			old, seen := in[s]
+			nw := map[string]bool{}
+			for k := range old {
+				nw[k] = true
+			}
+			grew := !seen
+			for k := range out {
+				if !nw[k] {
+					nw[k] = true
+					grew = true
+				}
+			}
+			if grew {
+				in[s] = nw
+				work = append(work, s)
+			}
+		}
+	}
+	res := map[string]bool{}
+	for b, st := range in {
+		if len(b.Instrs) == 0 {
+			continue
+		}
+		if _, isRet := b.Instrs[len(b.Instrs)-1].(*ssa.Return); !isRet {
+			continue
+		}
+		for k := range transfer(b, st) {
+			if !deferred[k] {
+				res[k] = true
+			}
+		}
+	}
+	var out []string
+	for k := range res {
+		out = append(out, k)
+	}
+	sort.Strings(out)
+	return out
+}
